@@ -580,8 +580,19 @@ func c15Func(c *Ctx, fd *ast.FuncDecl) {
 	var sharedCall *TCall
 	var mu types.Object
 	deferDone := false
+	var sharedStore *Step
 	for i, st := range bp.Steps {
 		call := st.Call
+		if call == nil && st.Kind == "store" && isMap && !ct.IsList {
+			// `result.val[k] = parseVal(f(k, x))`: Set of one pair, inlined from a private helper — a write on shared library state
+			if ix, isIx := st.LHS.(TIndex); isIx {
+				if _, sct := v.spineOf(ix.X); sct != nil && !sct.IsList {
+					shared = append(shared, i)
+					sharedStore = &bp.Steps[i]
+					continue
+				}
+			}
+		}
 		if call == nil {
 			sob.Undecided("unexpected step %s in the spawned body", st.Kind)
 			return
@@ -612,6 +623,8 @@ func c15Func(c *Ctx, fd *ast.FuncDecl) {
 				sob.Fail("Unlock on another mutex than Lock")
 				return
 			}
+		case call.Fun != nil && call.Fun.Pkg() == c.Types && call.Fun.Name() == "parseVal" && len(call.Args) == 1:
+			// the conversion of a value about to be stored: pure (C12.R1)
 		case call.Fun != nil && call.Fun.Pkg() == c.Types && mutatorNames[call.Fun.Name()]:
 			shared = append(shared, i)
 			sharedCall = call
@@ -669,6 +682,9 @@ func c15Func(c *Ctx, fd *ast.FuncDecl) {
 	iob := c.Ob("C15.R4", name+"/result-init", fd.Pos())
 	rc, isCall := result.(TCall)
 	switch {
+	case !ct.IsList && freshEmptyContainer(c, result, false):
+		// NewObject(), or a private constructor helper inlined to a registered literal with a fresh empty map (a capacity is only a hint)
+		iob.Ok("result starts as an empty object")
 	case !isCall || rc.Fun == nil:
 		iob.Fail("the returned value is not a container created in this call")
 	case ct.IsList:
@@ -678,7 +694,15 @@ func c15Func(c *Ctx, fd *ast.FuncDecl) {
 	}
 	r4 := c.Ob("C15.R4", name+"/pairing", lit.Pos())
 	good := sharedCall != nil && len(shared) == 1 && userCall != nil && sharedCall.Recv != nil && sameTerm(sharedCall.Recv, result)
-	if good {
+	if sharedStore != nil {
+		// the inlined form: result.spine[k] = parseVal(f(k, x))
+		good = false
+		if ix, isIx := sharedStore.LHS.(TIndex); isIx && len(shared) == 1 && userCall != nil && !ct.IsList {
+			base, _ := v.spineOf(ix.X)
+			pv, isPV := sharedStore.RHS.(TCall)
+			good = base != nil && sameTerm(base, result) && isKey(ix.I) && isPV && pv.Fun != nil && pv.Fun.Pkg() == c.Types && pv.Fun.Name() == "parseVal" && len(pv.Args) == 1 && sameTerm(pv.Args[0], *userCall)
+		}
+	} else if good {
 		want := "Set"
 		if ct.IsList {
 			want = "Replace"
